@@ -2,7 +2,10 @@ SPECIFICATION Spec
 CONSTANTS
   Sessions = {"a", "b", "v"}
   Viewers = {"v"}
-  MaxOps = 7
+  MaxOps = 6
+  MaxExpire = 3
+  TornIds = {99}
+  Failures = FALSE
   Variant = "locked"
   External = TRUE
   Sequential = FALSE
